@@ -25,7 +25,7 @@ def sh(cmd, cwd=None, env=None, timeout=3000):
 def main():
     pid, mdir = sys.argv[1], os.path.abspath(sys.argv[2])
     checks = sys.argv[3:] or [pid]
-    base = f"/tmp/m/{pid}"
+    base = os.environ.get("SEED_BASE") or f"/tmp/m/{pid}"
     wt = f"{base}/repo"
     env = dict(os.environ, PYTHONPATH=base)
     name = os.path.basename(mdir.rstrip("/"))
